@@ -134,7 +134,7 @@ Lemma validate_len : forall s s', validate s = Some s' -> Zlength s' = Zlength s
 Proof. intros s s' H. apply validate_alpha in H. destruct H as [_ H]. rewrite !Zlength_correct. lia. Qed.
 
 Lemma parse_pieces_fixed_no_err : forall pieces result maxb e,
-  parse_pieces v_fixed pieces result maxb <> PErr e.
+  parse_pieces v_tree pieces result maxb <> PErr e.
 Proof.
   induction pieces as [|piece rest IH]; intros result maxb e; cbn [parse_pieces]; try discriminate.
   destruct (Zlength piece >=? C20_PARAM_REQ_SIZE) eqn:El; try discriminate.
@@ -201,7 +201,7 @@ Variable fs : str -> option str.
 Lemma serve_fixed_safe : forall cfg tok e,
   display_fits cfg -> Zlength (httpDir cfg) <= C20_DIR_MAX ->
   Zlength (httpDir cfg) + Zlength tok + 1 <= C20_FULLFNAME_SIZE ->
-  snd (serve fs v_fixed cfg tok) <> Crash e.
+  snd (serve fs v_tree cfg tok) <> Crash e.
 Proof.
   intros cfg tok e Hd Hdir Htok. unfold serve.
   destruct (split_query tok) as [fname q] eqn:Esq.
@@ -235,7 +235,7 @@ Proof.
     destruct (body_effects_some cfg params (ends_with_vnc fname') (chunks (S (length content)) chunk_len content) Hd) as [b Hb].
     rewrite Hb. simpl. discriminate. }
   destruct q as [qs|].
-  - destruct (parse_params v_fixed qs C20_PARAMS_MAX) as [r| |e'] eqn:Ep.
+  - destruct (parse_params v_tree qs C20_PARAMS_MAX) as [r| |e'] eqn:Ep.
     + apply Hmain. apply params_alphabet in Ep. destruct Ep as [_ [_ [_ H]]].
       unfold C20_PARAMS_MAX, C20_PARAMS_SIZE in *. lia.
     + apply Hmain. rewrite Zlength_nil. unfold C20_PARAMS_SIZE. lia.
@@ -245,7 +245,7 @@ Qed.
 
 Lemma get_stage_fixed_safe : forall cfg s e,
   display_fits cfg -> Zlength (httpDir cfg) <= C20_DIR_MAX ->
-  snd (get_stage fs v_fixed cfg s) <> Crash e.
+  snd (get_stage fs v_tree cfg s) <> Crash e.
 Proof.
   intros cfg s e Hd Hdir. unfold get_stage.
   destruct (negb (is_prefix s_GET s)). { simpl; discriminate. }
@@ -261,7 +261,7 @@ Proof.
 Qed.
 
 Lemma proxy_stage_fixed_safe : forall cfg s ef st e,
-  proxy_stage v_fixed cfg s = PResult ef st -> st <> Crash e.
+  proxy_stage v_tree cfg s = PResult ef st -> st <> Crash e.
 Proof.
   intros cfg s ef st e. unfold proxy_stage.
   destruct (negb (proxy cfg)); try discriminate.
@@ -281,7 +281,7 @@ Qed.
    every input, one call never overruns a buffer, never reads beyond a terminator, never
    dereferences NULL and never runs out of fuel *)
 Theorem fixed_never_crashes : forall cfg segs e,
-  display_fits cfg -> snd (http_process fs v_fixed cfg segs) <> Crash e.
+  display_fits cfg -> snd (http_process fs v_tree cfg segs) <> Crash e.
 Proof.
   intros cfg segs e Hd. unfold http_process, http_process_n.
   destruct (Zlength (httpDir cfg) >? C20_DIR_MAX) eqn:Edir. { simpl; discriminate. }
@@ -290,16 +290,99 @@ Proof.
   { unfold C20_DIR_MAX, C20_FULLFNAME_SIZE in *. lia. }
   destruct (read_loop_top segs) as [Hne _].
   destruct (read_loop read_fuel [] segs 0) as [[b| | |e'] n]; simpl fst; simpl snd; try discriminate.
-  - unfold process_request. destruct (proxy_stage v_fixed cfg (cstr b)) as [|ef st] eqn:Ep.
+  - unfold process_request. destruct (proxy_stage v_tree cfg (cstr b)) as [|ef st] eqn:Ep.
     + apply get_stage_fixed_safe; auto.
     + simpl. eapply proxy_stage_fixed_safe; eauto.
   - exfalso. apply (Hne e'). reflexivity.
 Qed.
 
+(* without any hypothesis on the configuration: the only Crash outcome the tree can have is the
+   $DISPLAY text not fitting str[] (excluded by display_fits); in particular never a NULL
+   dereference, never a read beyond a terminator, never an overrun of the request buffers *)
+Lemma serve_tree_crash : forall cfg tok e,
+  Zlength (httpDir cfg) <= C20_DIR_MAX ->
+  Zlength (httpDir cfg) + Zlength tok + 1 <= C20_FULLFNAME_SIZE ->
+  snd (serve fs v_tree cfg tok) = Crash e -> e = Overflow 6.
+Proof.
+  intros cfg tok e Hdir Htok. unfold serve.
+  destruct (split_query tok) as [fname q] eqn:Esq.
+  assert (Hfn : Zlength fname <= Zlength tok).
+  { unfold split_query in Esq. destruct (index_of c_qmark tok); inversion Esq; subst; [apply Zlength_firstn_le|lia]. }
+  assert (Hmain : forall params, Zlength params + 1 <= C20_PARAMS_SIZE ->
+    snd (if Zlength params + 1 >? C20_PARAMS_SIZE then ([], Crash (Overflow 5)) else
+      if strstr s_dotdot fname then ([Send (r_notfound cfg); Close], Done) else
+      let fname' := if list_eqb fname s_slash then s_index else fname in
+      if Zlength (httpDir cfg) + Zlength fname' + 1 >? C20_FULLFNAME_SIZE then ([], Crash (Overflow 3)) else
+      let subst := ends_with_vnc fname' in
+      let path := httpDir cfg ++ fname' in
+      match fs path with
+      | None => ([Open path false; Send (r_notfound cfg); Close], Done)
+      | Some content =>
+          match body_effects cfg params subst (chunks (S (length content)) chunk_len content) with
+          | None => ([Open path true; Send (r_ok cfg); Send (content_type fname'); Send s_crlf], Crash (Overflow 6))
+          | Some body =>
+              ([Open path true; Send (r_ok cfg); Send (content_type fname'); Send s_crlf] ++ body ++ [Close], Done)
+          end
+      end) = Crash e -> e = Overflow 6).
+  { intros params Hp.
+    destruct (Zlength params + 1 >? C20_PARAMS_SIZE) eqn:E1. { exfalso; lia. }
+    destruct (strstr s_dotdot fname). { simpl; discriminate. }
+    cbv zeta. set (fname' := if list_eqb fname s_slash then s_index else fname).
+    assert (Hf' : Zlength (httpDir cfg) + Zlength fname' + 1 <= C20_FULLFNAME_SIZE).
+    { unfold fname'. destruct (list_eqb fname s_slash); [|lia].
+      change (Zlength s_index) with 10. unfold C20_DIR_MAX, C20_FULLFNAME_SIZE in *. lia. }
+    destruct (Zlength (httpDir cfg) + Zlength fname' + 1 >? C20_FULLFNAME_SIZE) eqn:E2. { exfalso; lia. }
+    destruct (fs (httpDir cfg ++ fname')) as [content|]; [|simpl; discriminate].
+    destruct (body_effects cfg params (ends_with_vnc fname') (chunks (S (length content)) chunk_len content)).
+    - simpl. discriminate.
+    - simpl. intro H; inversion H; reflexivity. }
+  destruct q as [qs|].
+  - destruct (parse_params v_tree qs C20_PARAMS_MAX) as [r| |e'] eqn:Ep.
+    + apply Hmain. apply params_alphabet in Ep. destruct Ep as [_ [_ [_ H]]].
+      unfold C20_PARAMS_MAX, C20_PARAMS_SIZE in *. lia.
+    + apply Hmain. rewrite Zlength_nil. unfold C20_PARAMS_SIZE. lia.
+    + exfalso. unfold parse_params in Ep. eapply parse_pieces_fixed_no_err; eauto.
+  - apply Hmain. rewrite Zlength_nil. unfold C20_PARAMS_SIZE. lia.
+Qed.
+
+Theorem tree_crash_only_display : forall cfg segs e,
+  snd (http_process fs v_tree cfg segs) = Crash e -> e = Overflow 6.
+Proof.
+  intros cfg segs e. unfold http_process, http_process_n.
+  destruct (Zlength (httpDir cfg) >? C20_DIR_MAX) eqn:Edir. { simpl; discriminate. }
+  assert (Hdir : Zlength (httpDir cfg) <= C20_DIR_MAX) by lia.
+  destruct (Zlength (httpDir cfg) + 1 >? C20_FULLFNAME_SIZE) eqn:E2.
+  { exfalso. unfold C20_DIR_MAX, C20_FULLFNAME_SIZE in *. lia. }
+  destruct (read_loop_top segs) as [Hne _].
+  destruct (read_loop read_fuel [] segs 0) as [[b| | |e'] n]; simpl fst; simpl snd; try discriminate.
+  2:{ intros _. exfalso. apply (Hne e'). reflexivity. }
+  unfold process_request. destruct (proxy_stage v_tree cfg (cstr b)) as [|ef st] eqn:Ep.
+  2:{ simpl. intro H. exfalso. eapply proxy_stage_fixed_safe; eauto. }
+  unfold get_stage.
+  destruct (negb (is_prefix s_GET (cstr b))). { simpl; discriminate. }
+  destruct (Zlength (first_line (cstr b)) >? C20_MAXFNAME_BASE - Zlength (httpDir cfg)) eqn:El. { simpl; discriminate. }
+  destruct (take_token (skip_ws (skipn 3 (first_line (cstr b))))) as [|c tok] eqn:Et. { simpl; discriminate. }
+  assert (Hlen : Zlength (c :: tok) <= Zlength (first_line (cstr b))).
+  { rewrite <- Et. eapply Z.le_trans; [apply take_token_len|]. eapply Z.le_trans; [apply skip_ws_len|]. apply Zlength_skipn_le. }
+  assert (Hfit : Zlength (httpDir cfg) + Zlength (c :: tok) + 1 <= C20_FULLFNAME_SIZE).
+  { unfold C20_MAXFNAME_BASE, C20_FULLFNAME_SIZE in *. lia. }
+  destruct (Zlength (httpDir cfg) + Zlength (c :: tok) + 1 >? C20_FULLFNAME_SIZE) eqn:Eo. { exfalso; lia. }
+  destruct (negb (c =? c_slash)). { simpl; discriminate. }
+  apply serve_tree_crash; auto.
+Qed.
+
+(* proxy requests and parameter strings are safe for every configuration and request *)
+Theorem tree_proxy_params_safe : forall cfg segs,
+  snd (http_process fs v_tree cfg segs) <> Crash NullDeref /\
+  snd (http_process fs v_tree cfg segs) <> Crash UninitRead.
+Proof.
+  intros cfg segs. split; intro H; apply tree_crash_only_display in H; discriminate.
+Qed.
+
 (* ------------------------------------------------------------------ unchanged tree vs fixed variant *)
 Lemma parse_pieces_variants : forall pieces result maxb,
-  parse_pieces v_tree pieces result maxb = PErr UninitRead \/
-  parse_pieces v_tree pieces result maxb = parse_pieces v_fixed pieces result maxb.
+  parse_pieces v_prefix pieces result maxb = PErr UninitRead \/
+  parse_pieces v_prefix pieces result maxb = parse_pieces v_tree pieces result maxb.
 Proof.
   induction pieces as [|piece rest IH]; intros result maxb; cbn [parse_pieces]; auto.
   destruct (Zlength piece >=? C20_PARAM_REQ_SIZE); auto.
@@ -313,7 +396,7 @@ Proof.
 Qed.
 
 Lemma serve_variants : forall cfg tok,
-  serve fs v_tree cfg tok = ([], Crash UninitRead) \/ serve fs v_tree cfg tok = serve fs v_fixed cfg tok.
+  serve fs v_prefix cfg tok = ([], Crash UninitRead) \/ serve fs v_prefix cfg tok = serve fs v_tree cfg tok.
 Proof.
   intros cfg tok. unfold serve. destruct (split_query tok) as [fname q].
   destruct q as [qs|]; auto.
@@ -321,7 +404,7 @@ Proof.
 Qed.
 
 Lemma get_stage_variants : forall cfg s,
-  get_stage fs v_tree cfg s = ([], Crash UninitRead) \/ get_stage fs v_tree cfg s = get_stage fs v_fixed cfg s.
+  get_stage fs v_prefix cfg s = ([], Crash UninitRead) \/ get_stage fs v_prefix cfg s = get_stage fs v_tree cfg s.
 Proof.
   intros cfg s. unfold get_stage.
   destruct (negb (is_prefix s_GET s)); auto.
@@ -332,7 +415,7 @@ Proof.
 Qed.
 
 Lemma proxy_stage_variants : forall cfg s,
-  proxy_stage v_tree cfg s = PResult [] (Crash NullDeref) \/ proxy_stage v_tree cfg s = proxy_stage v_fixed cfg s.
+  proxy_stage v_prefix cfg s = PResult [] (Crash NullDeref) \/ proxy_stage v_prefix cfg s = proxy_stage v_tree cfg s.
 Proof.
   intros cfg s. unfold proxy_stage.
   destruct (negb (proxy cfg)); auto.
@@ -344,9 +427,9 @@ Qed.
 (* the unchanged tree behaves exactly like the fixed variant unless it reaches one of the two
    defect sites (then it has produced no effect yet) *)
 Theorem tree_vs_fixed : forall cfg segs,
-  http_process fs v_tree cfg segs = ([], Crash NullDeref) \/
-  http_process fs v_tree cfg segs = ([], Crash UninitRead) \/
-  http_process fs v_tree cfg segs = http_process fs v_fixed cfg segs.
+  http_process fs v_prefix cfg segs = ([], Crash NullDeref) \/
+  http_process fs v_prefix cfg segs = ([], Crash UninitRead) \/
+  http_process fs v_prefix cfg segs = http_process fs v_tree cfg segs.
 Proof.
   intros cfg segs. unfold http_process, http_process_n.
   destruct (Zlength (httpDir cfg) >? C20_DIR_MAX); auto.
@@ -354,15 +437,15 @@ Proof.
   destruct (read_loop read_fuel [] segs 0) as [[b| | |e'] n]; simpl fst; auto.
   unfold process_request.
   destruct (proxy_stage_variants cfg (cstr b)) as [H|H]; rewrite H; auto.
-  destruct (proxy_stage v_fixed cfg (cstr b)); auto.
+  destruct (proxy_stage v_tree cfg (cstr b)); auto.
   destruct (get_stage_variants cfg (cstr b)) as [G|G]; rewrite G; auto.
 Qed.
 
 Theorem tree_safe_partial : forall cfg segs e,
   display_fits cfg ->
-  snd (http_process fs v_tree cfg segs) <> Crash NullDeref ->
-  snd (http_process fs v_tree cfg segs) <> Crash UninitRead ->
-  snd (http_process fs v_tree cfg segs) <> Crash e.
+  snd (http_process fs v_prefix cfg segs) <> Crash NullDeref ->
+  snd (http_process fs v_prefix cfg segs) <> Crash UninitRead ->
+  snd (http_process fs v_prefix cfg segs) <> Crash e.
 Proof.
   intros cfg segs e Hd H1 H2. destruct (tree_vs_fixed cfg segs) as [H|[H|H]].
   - rewrite H in H1. simpl in H1. congruence.
@@ -394,13 +477,13 @@ Lemma display_fits_w : forall px, display_fits (cfg_w px).
 Proof. intros px. unfold display_fits. vm_compute. discriminate. Qed.
 
 Lemma proxy_refuted_connect :
-  http_process fs_w v_tree (cfg_w true) [Data req_connect] = ([], Crash NullDeref).
+  http_process fs_w v_prefix (cfg_w true) [Data req_connect] = ([], Crash NullDeref).
 Proof. vm_compute. reflexivity. Qed.
 
 Lemma proxy_refuted_get :
-  http_process fs_w v_tree (cfg_w true) [Data req_get_noslash] = ([], Crash NullDeref).
+  http_process fs_w v_prefix (cfg_w true) [Data req_get_noslash] = ([], Crash NullDeref).
 Proof. vm_compute. reflexivity. Qed.
 
 Lemma params_refuted_w :
-  http_process fs_w v_tree (cfg_w false) [Data req_empty_param] = ([], Crash UninitRead).
+  http_process fs_w v_prefix (cfg_w false) [Data req_empty_param] = ([], Crash UninitRead).
 Proof. vm_compute. reflexivity. Qed.
